@@ -243,19 +243,24 @@ theorem xmlnsOfKv_none {o : Opts} {kv : String × J} (h : xmlnsLike o kv.1 = fal
 theorem kidsOf_append (nm : String) (a b : List J) : kidsOf nm (a ++ b) = kidsOf nm a ++ kidsOf nm b := by
   simp [kidsOf]
 
-/-- one dict entry built by the decode loop goes back to the children it came from -/
+theorem kidsX_eq (o : Opts) (m : Mapper) (k : String) (hx : ∀ x, m.umX x k = m.um k) (vs : List J) :
+    kidsX o m k vs = kidsOf (m.um k) vs := by
+  simp [kidsX, kidsOf, hx]
+
+/-- one dict entry built by the decode loop goes back to the children it came from (`hx`: the declarations
+    that a child's data carries do not change what the key denotes) -/
 theorem encStep_pack (o : Opts) (m : Mapper) (f : Facts) (a : Acc) (k : String) (sg : Bool) (vs : List J)
     (hcl : classify o k = .other) (hne : vs ≠ []) (hvs : ∀ x ∈ vs, x.isSeq = false)
-    (hch : ∃ ch, findChild f (m.um k) = some ch ∧ ch.isList = false) :
+    (hch : ∃ ch, findChild f (m.um k) = some ch ∧ ch.isList = false)
+    (hx : ∀ x, m.umX x k = m.um k) :
     encStep o m f a (k, pack o sg vs) = { a with content := a.content ++ kidsOf (m.um k) vs } := by
   obtain ⟨ch, hf, hl⟩ := hch
   simp only [encStep, hcl]
   have hlist : ∀ v0 rest, (∀ x ∈ v0 :: rest, x.isSeq = false) →
       putValue o m f a k (.list (v0 :: rest)) = { a with content := a.content ++ kidsOf (m.um k) (v0 :: rest) } := by
     intro v0 rest hh
-    have h0 : v0.isSeq = false := hh v0 (by simp)
-    simp only [putValue, h0, Bool.or_false, hf, hl]
-    by_cases hm : v0.isMap = true <;> simp [hm]
+    simp only [putValue, hf, hl, kidsX_eq o m k hx]
+    by_cases hm : ((v0 :: rest).any fun v => v.isMap || v.isSeq) = true <;> simp [hm]
   match vs, hne, hvs with
   | [v0], _, hvs =>
     have h0 : v0.isSeq = false := hvs v0 (by simp)
@@ -264,7 +269,7 @@ theorem encStep_pack (o : Opts) (m : Mapper) (f : Facts) (a : Acc) (k : String) 
     · by_cases hfl : o.forceList = true
       · simp only [hsg, hfl, if_true]; exact hlist v0 [] hvs
       · simp only [hsg, hfl, if_true, Bool.false_eq_true, if_false]
-        cases v0 <;> simp [J.isSeq] at h0 <;> simp [putValue, kidsOf]
+        cases v0 <;> simp [J.isSeq] at h0 <;> simp [putValue, kidsOf, hx]
     · simp only [hsg, Bool.false_eq_true, if_false]; exact hlist v0 [] hvs
   | v0 :: v1 :: r, _, hvs =>
     simp only [pack]; exact hlist v0 (v1 :: r) hvs
@@ -281,6 +286,9 @@ theorem renum_noCdata {α : Type} (j k : Nat) (l : List (Item α)) (h : noCdata 
 structure KidOK (o : Opts) (m : Mapper) (f : Facts) (nm : String) : Prop where
   cls : classify o (m.mp nm) = .other
   um : m.um (m.mp nm) = nm
+  /-- the declarations that the data of a child carries do not change what the child's key denotes (one
+      mapper per level: a child that re-declares the prefix of its own name is outside this model) -/
+  umX : ∀ x, m.umX x (m.mp nm) = m.um (m.mp nm)
   decl : ∃ ch, findChild f nm = some ch ∧ ch.isList = false
 
 /-- the entries of the decode loop are turned back into the content, in order -/
@@ -297,7 +305,7 @@ theorem foldl_entries (o : Opts) (m : Mapper) (f : Facts) :
     intro k sg vs a nm0 _ hk h0 hne hvs _
     subst hk
     simp only [grp, entries, List.map_cons, List.map_nil, List.foldl_cons, List.foldl_nil, renum, List.append_nil]
-    rw [encStep_pack o m f a _ sg vs h0.cls hne hvs (by rw [h0.um]; exact h0.decl), h0.um]
+    rw [encStep_pack o m f a _ sg vs h0.cls hne hvs (by rw [h0.um]; exact h0.decl) h0.umX, h0.um]
   | cons x r ih =>
     intro k sg vs a nm0 hnc hk h0 hne hvs hr
     cases x with
@@ -326,7 +334,7 @@ theorem foldl_entries (o : Opts) (m : Mapper) (f : Facts) :
       · have hkey' : (m.mp nm == k) = false := by simpa using hkey
         simp only [hkey', Bool.false_eq_true, if_false, entries, List.map_cons, List.foldl_cons]
         subst hk
-        rw [encStep_pack o m f a _ sg vs h0.cls hne hvs (by rw [h0.um]; exact h0.decl), h0.um]
+        rw [encStep_pack o m f a _ sg vs h0.cls hne hvs (by rw [h0.um]; exact h0.decl) h0.umX, h0.um]
         have := ih (m.mp nm) (f.singleGroup && s) [v] { a with content := a.content ++ kidsOf nm0 vs } nm hnc' rfl hnm
           (by simp) (by intro x hx; simp only [List.mem_singleton] at hx; subst hx; exact hv0) hr'
         simp only [entries] at this
